@@ -398,7 +398,6 @@ def write_evidence(prop, tier, seed, cov, wall):
             "legs": cov["legs"], "known_finding_classes": cov["known"], "new_violation_classes": cov["new"],
             "rule": evidence_text.RULE.get(prop, evidence_text.RULE["default"]),
             "exhaustive": evidence_text.EXHAUSTIVE.get(prop, False),
-            "distinct_nontrivial": cov["evaluated"], "evaluations": cov["executed"],
         },
         "assumptions": evidence_text.ASSUMPTIONS,
         "wall_s": round(wall, 2), "violations": cov["new"],
